@@ -261,10 +261,17 @@ class P(Prop):
         (M, "TV.C15.inDomain_normalise", "the domain does not depend on the scale of a weight list (it holds for the list normalised in place)"),
         (M, "TV.C15.filterSeq_twice", "filter_seq called twice on the same track with the same kernel object: mean signals, then mean signals of the mean signals under the same window (temp left by the first call and the in-place normalisation do not matter)"),
         (M, "TV.C15.number_kernel_refused", "a float given as kernel (documented for filter_seq) is refused with a TypeError in the kernel preparation: filter_seq fails at the first dimension, operate always; never a value"),
+        (M, "TV.C15.algebraic_is_mean", "T1 for the algebraic form track.operate(\"out = in ! w\") / \"out = in .* w\" / \"in ! w\": out (feature or coordinate) becomes — or the call returns — the mean signal of `in` under the weights held by `w`; the temporary features are gone, nothing else changes"),
+        (M, "TV.C15.filter_local", "locality, for ANY scalar type (no law of arithmetic used: IEEE doubles included): two signals of one length agreeing within D of i get the same out[i] from Filter.execute, bit for bit"),
+        (M, "TV.C15.filter_far_sample", "replacing a sample further than D from i by any value (an outlier of another order of magnitude) leaves out[i] as it is — any scalar type"),
+        (M, "TV.C15.execute_local", "locality for Filter.execute as a whole (list normalised in place / Kernel object / Dirac): the kernel preparation does not look at the signal"),
+        (M, "TV.C15.filter_local_float", "filter_local instantiated at the IEEE doubles of the Lean runtime (the scalar type of the float streams)"),
         (M, "TV.C15.zero_norm_fails", "outside the domain (a zero norm) the method fails with a division by zero for a Kernel object, never a wrong value"),
     ]
     partial = []
-    open_statements = ["theorems are over a linearly ordered field: IEEE rounding of the float computation is outside them (sampled by the transfer check at 1e-9)",
+    open_statements = ["theorems are over a linearly ordered field: IEEE rounding of the float computation is outside them, except locality (filter_local, filter_far_sample, "
+                       "execute_local hold for any scalar type, IEEE doubles included: out[i] is a function of the kernel and of the samples of its own window); how far the float "
+                       "weighted mean of those samples is from the exact one is sampled by the transfer check at 1e-12 of the largest weighted sample of the window",
                        "math.exp is a parameter of the Gaussian / Exponential kernel functions: exp_kernel_windows / smooth_gaussian assume it returns positive numbers "
                        "(true of libm on the sampled range, not proved); closed-form user functions are a function parameter tabulated by Python, "
                        "window_shape / window_of_nonneg_kernel apply to them under the stated hypotheses (even, non-negative at the sample points, positive at one)",
@@ -279,6 +286,8 @@ class P(Prop):
                 "on a track shorter than the half window), "
                 "Track.operate(Operator.FILTER, arg1, kernel[, arg3]) with createAnalyticalFeature (reserved names, empty track, new output feature), output name omitted, "
                 "lists of input / output names (one call per pair with the same kernel object, lengths compared), "
+                "the algebraic form track.operate(\"out = in ! w\") / \"out = in .* w\" / \"in ! w\" for two names of the track (FILTER into the temporary feature #0, assignment to a "
+                "new / an existing feature or to a coordinate, removal of the #-features; the parsing of the expression itself is C02's model), "
                 "Kernel.evaluate and Kernel.toSlidingWindow (zero sum included), the kernel functions of Uniform/Triangular/Epanechnikov/Cubic/Spheric kernels (math.pow with "
                 "integer exponents as products) and of Gaussian/Exponential kernels (math.exp, math.sqrt(2*math.pi) as parameters: Float.exp / Float.sqrt in the driver), "
                 "user-defined kernels given by a table of values (closed-form user functions are a function parameter tabulated by Python), "
@@ -290,12 +299,16 @@ class P(Prop):
                "math.pow(a, n) for n = 2, 3, 5, 7 is modelled as a product (exact over the rationals, compared at 1e-9 with floats)",
                "np.sum is modelled as a left-to-right sum; int(support) as floor"]
     rule = ("signals random-integer / dyadic / float / constant / monotone, with isolated NaN, length window..window+12, and (about one case in seven, every API) shorter than the "
-            "window: 1..window-1, below and above the half window; kernels: odd weight "
+            "window: 1..window-1, below and above the half window; about one signal in four (every API and stream) holds samples of very different orders of magnitude: one or two "
+            "samples of 1e6..3e20 (one sign per signal) at the first valid index / anywhere / at the last valid index among small values or a constant stretch, every sample at its own "
+            "scale 1e-6..1e13, or a large common offset with metre-level variations (tag dynamic_range); every output is judged with a tolerance local to its own window "
+            "(1e-12 of the largest sample carrying a positive weight; a copied boundary value exactly); kernels: odd weight "
             "lists with positive weights (symmetric and asymmetric, integer/dyadic/decimal), integers (filter_seq, incl. the default kernel), the built-in "
             "non-negative kernels Uniform/Triangular/Epanechnikov/Gaussian/Exponential/Cubic/Spheric/Dirac with widths 1..5, boundary and "
             "non-integer widths, user-defined kernels (Kernel + setFunction) returning Python ints / floats / bools / numpy scalars from a table or a closed form "
             "(0 at the support edge or not), filterBoundary set to True / False / never set; features via track.operate(FILTER) incl. output into an existing / the same / a new feature / "
-            "output name omitted, lists of names (in place, fresh outputs; overlapping / repeated / mismatched lists for correspondence) "
+            "output name omitted, the algebraic forms \"out = in ! w\" / \"out = in .* w\" (out a new / an existing feature / the input / a coordinate) and \"in ! w\" (values returned), "
+            "lists of names (in place, fresh outputs; overlapping / repeated / mismatched lists for correspondence) "
             "and kernels given as feature names, x/y/z and features via filter_seq with dim omitted / a module constant / a list / a str, once or twice on the same track with the same kernel object, "
             "Track.smooth (width given or omitted), Kernel.toSlidingWindow; sessions of 2-4 calls (filter_seq, Track.smooth, filter_freq) in one process on different tracks, some with an all-NaN "
             "coordinate or no observation, the module constants and Kernel class attributes being read after every call. All signals over {0,1,NaN} up to length 6 (quick) / 7 (thorough) "
